@@ -356,7 +356,8 @@ func genOverlay(p *packages.Package, con *Contracts, L *Loaded) (string, []strin
 	w("func __old[T any](x T) T { return x }\n")
 	w("func __trigger(x ...any) bool { return true }\n")
 	w("func __has[K comparable, V any](m map[K]V, k K) bool { return true }\n")
-	w("func __same[T any](a, b T) bool { return true }\n\n")
+	w("func __same[T any](a, b T) bool { return true }\n")
+	w("func __fresh(x any) bool { return true }\n\n")
 
 	for _, d := range con.Decls {
 		w("//origin %s %s (%s:%d)\n", d.Kind, d.Name, filepath.Base(d.File), d.Line)
